@@ -20,3 +20,21 @@ Definition ex_final : res sys := do s <- init ex_desc; run s ex_ops.
 
 Example ex_run_ok : exists s, ex_final = Ok s /\ s_live s = [].
 Proof. vm_compute. eexists; split; reflexivity. Qed.
+
+(** a reachable state with three live allocations (whole, scattered and fractional holdings) *)
+Definition ex_mid : res sys := do s <- init ex_desc; run s (firstn 3 ex_ops).
+Example ex_mid_ok : exists s0 s, init ex_desc = Ok s0 /\ run s0 (firstn 3 ex_ops) = Ok s /\ length (s_live s) = 3%nat
+  /\ exclusive_ok (a_pools (s_alloc s0)) (s_live s) = true
+  /\ conserved_ok (a_pools (s_alloc s0)) (a_pools (s_alloc s)) (s_live s) = true
+  /\ mirror_ok (a_pools (s_alloc s)) (a_free (s_alloc s)) = true.
+Proof. vm_compute. do 2 eexists. repeat split; reflexivity. Qed.
+
+(** the scenario of corpus/alloc/strict-tiebreak-refusal.trace: groups of 2 and 6 indices, one index of the
+    small group partly used; `tight! 2` is granted (it was refused before the fix of has_resources_for_request) *)
+Definition ex_strict_desc : desc := mkDesc 1 [(0, KGroups [[2; 4]; [6; 7; 9; 11; 13; 15]])] [].
+Definition ex_strict_ops : list op :=
+  [ OAlloc [mkEntry 0 (Req Scatter 7500)] (mkWitness None None None [(0, 1)]);
+    OAlloc [mkEntry 0 (Req ForceTight 20000)] (mkWitness (Some [[1]]) (Some [[1]]) (Some [[0]]) []) ].
+Example ex_strict_granted :
+  exists s, (do s0 <- init ex_strict_desc; run s0 ex_strict_ops) = Ok s /\ length (s_live s) = 2%nat.
+Proof. vm_compute. eexists. split; reflexivity. Qed.
